@@ -70,6 +70,15 @@ func shapeScalars(e *env, shape string, n int, c uint64) []*big.Int {
 			}
 			sc[i] = new(big.Int).Lsh(t, shift)
 			sc[i].Mod(sc[i], r)
+		case "runs": // a few full-size values, each repeated over a long run of consecutive entries: every entry of a run
+			// wants the bucket the previous one is still waiting for (the batched-affine addition queues such conflicts)
+			if i%max(n/100, 2) == 0 { // about 100 runs
+				sc[i] = e.rng.BigBelow(r)
+			} else {
+				sc[i] = sc[i-1]
+			}
+		case "sorted-small": // sorted small values: runs of equal digits in the lowest window, zero elsewhere
+			sc[i] = big.NewInt(int64(1 + i/max(n/100, 2)))
 		case "half": // digits exactly 2^(c-1) boundary
 			v := new(big.Int)
 			for k := 0; k*int(c) < r.BitLen()-1; k++ {
@@ -144,7 +153,7 @@ func runGroup(c *mon.Ctx, g *groups.Group) {
 	}
 	g.MSMSetPool(reps)
 	race := *mode == "race"
-	sizes := []int{0, 1, 2, 3, 17, 255, 1000, 4096}
+	sizes := []int{0, 1, 2, 3, 17, 255, 1000, 4096, 6000}
 	if c.Thorough() && !race {
 		sizes = append(sizes, 1<<14, 1<<16)
 		if f.Deg() > 1 {
@@ -154,7 +163,7 @@ func runGroup(c *mon.Ctx, g *groups.Group) {
 	if race {
 		sizes = []int{0, 3, 300, 5000}
 	}
-	scShapes := []string{"random", "zero", "one", "r-1", "small", "single-digit", "top-carry", "half"}
+	scShapes := []string{"random", "zero", "one", "r-1", "small", "single-digit", "top-carry", "half", "runs", "sorted-small"}
 	ptShapes := []string{"distinct", "same", "pairs", "infinity"}
 	tasks := []int{-1, 0, 1, 2, 3, 15, 16, 17, 64, 1024}
 	procs := []int{1, 2, 3, 8, 16}
@@ -181,10 +190,11 @@ func runGroup(c *mon.Ctx, g *groups.Group) {
 		for si, ss := range scShapes {
 			for pi, ps := range ptShapes {
 				// quick tier: a Latin-square style subset of (scalar shape x point shape) per size, all pairs covered across sizes
-				if !c.Thorough() && n > 17 && (si+pi+n)%3 != 0 {
+				runShape := (ss == "runs" || ss == "sorted-small") && ps == "distinct" && n >= 1000 // always with distinct points
+				if !c.Thorough() && n > 17 && (si+pi+n)%3 != 0 && !runShape {
 					continue
 				}
-				if race && (si+pi+n)%6 != 0 {
+				if race && (si+pi+n)%6 != 0 && !(runShape && n >= 5000) {
 					continue
 				}
 				cwin := uint64(4)
